@@ -1,5 +1,6 @@
 SPECIFICATION TSpec
 CONSTANT Sched = "any"
+CONSTANT KFS = {"D12"}
 CONSTRAINT Progress
 POSTCONDITION Accepted
 CHECK_DEADLOCK FALSE
